@@ -245,6 +245,7 @@ func runOrdset(rep *vk.Report, r *rand.Rand, idx int, big bool) (uint64, bool) {
 		}
 	}
 	rep.Count("ordset_ops", log.n)
+	sampleOps = append([]string{fmt.Sprintf("(%d operations, %d keys in the set at the end)", log.n, len(m.keys))}, log.last...)
 	return log.h, log.n > 0 && pos > 0 && neg > 0
 }
 
@@ -446,5 +447,6 @@ func runRanges(rep *vk.Report, r *rand.Rand, idx int, big bool) (uint64, bool) {
 		}
 	}
 	rep.Count("ranges_ops", log.n)
+	sampleOps = append([]string{fmt.Sprintf("(%d operations, %d disjoint ranges at the end)", log.n, len(m.rs))}, log.last...)
 	return log.h, log.n > 0 && pos > 0 && neg > 0
 }
